@@ -568,6 +568,37 @@ func init() {
 		}
 		return out
 	})
+	reg("strings.Split", func(in *Interp, fr *frame, a []Value) Value {
+		if ss, ok := a[0].(*SymStr); ok {
+			sep, ok2 := a[1].(string)
+			if !ok2 {
+				in.abort("unsupported: strings.Split with symbolic separator")
+			}
+			return in.symSplit(ss, sep)
+		}
+		s0, ok0 := a[0].(string)
+		s1, ok1 := a[1].(string)
+		if !ok0 || !ok1 {
+			in.abort("unsupported: strings.Split operands")
+		}
+		parts := strings.Split(s0, s1)
+		out := make(Slice, len(parts))
+		for i, p := range parts {
+			out[i] = p
+		}
+		return out
+	})
+	reg("strings.Fields", func(in *Interp, fr *frame, a []Value) Value {
+		if ss, ok := a[0].(*SymStr); ok {
+			return in.symFields(ss)
+		}
+		parts := strings.Fields(a[0].(string))
+		out := make(Slice, len(parts))
+		for i, p := range parts {
+			out[i] = p
+		}
+		return out
+	})
 	reg("strings.TrimSpace", func(in *Interp, fr *frame, a []Value) Value {
 		if ss, ok := a[0].(*SymStr); ok {
 			return in.symTrimSpace(ss)
